@@ -160,6 +160,15 @@ def oracle(c, case, r):
     if r["defs_state_dict"] != r["defs"] or r["defs_save"] != r["defs"]:
         c.violation("C12:paths-write-different-definitions", "state_dict / save write other definitions than __get_objects__",
                     dict(desc=desc, root=case["root"]))
+    # the job folder prepared a second time for the same identifier with other tags holds the LAST parameters
+    if r.get("prep_same_folder"):
+        c.count("prepared-twice")
+        if r["prep_tags_written"] != r["prep_tags"]:
+            c.violation("C12:parameter-file-not-rewritten", "a job folder prepared again (same identifier, other tags) keeps the "
+                        "earlier parameter file: the job process would observe the earlier tags",
+                        dict(desc=desc, root=case["root"], written=r["prep_tags_written"], configured=r["prep_tags"]))
+    elif "prep_error" in r:
+        c.count("prepared-twice:error:" + r["prep_error"].split(":")[0])
     # the parameter file of a job (what run.py reads): same definitions, and exactly the configured tags
     if "params_error" in r:
         c.violation("C12:parameter-file-raises", "writing the parameter file raised: " + r["params_error"][:80],
